@@ -11,9 +11,9 @@ import (
 // denotes { s | some substring of s matches, anchors respected }.
 //
 // The parser is the runtime's own regexp/syntax. Anything the translator does not
-// know is rejected (fail closed). Strings are byte sequences (A2): a character
-// class is translated over code points 0..255; classes reaching above 255 are
-// truncated, which is exact for the patterns in /repo (ASCII only) and is checked.
+// know is rejected (fail closed). Go matches regular expressions rune-wise; classes are
+// translated code point for code point (SMT-LIB characters), so for the ASCII-only
+// grammars of /repo the byte view (A2) and the rune view of a string agree on membership.
 func RegexToSMT(pattern string) (string, error) {
 	re, err := syntax.Parse(pattern, syntax.Perl)
 	if err != nil {
@@ -75,24 +75,28 @@ func (t *reTrans) top(re *syntax.Regexp) (string, bool, bool, error) {
 	return "(re.++ " + strings.Join(ts, " ") + ")", begin, end, nil
 }
 
-func reChar(r rune) string {
-	if r > 255 {
-		return "re.none"
+// smtChar renders one code point as an SMT-LIB string literal.
+func smtChar(r rune) string {
+	if r >= 0x20 && r < 0x7f && r != '"' && r != '\\' {
+		return "\"" + string(r) + "\""
 	}
-	return fmt.Sprintf("(str.to_re %s)", strLit(string([]byte{byte(r)})))
+	return fmt.Sprintf("\"\\u{%x}\"", r)
 }
 
+func reChar(r rune) string {
+	return fmt.Sprintf("(str.to_re %s)", smtChar(r))
+}
+
+// reRange: Go runes end at 0x10FFFF, SMT-LIB characters at 0x2FFFF; a class that reaches Go's maximum
+// is extended to the SMT maximum so that "everything else" means the same on both sides.
 func reRange(lo, hi rune) string {
-	if lo > 255 {
-		return "re.none"
-	}
-	if hi > 255 {
-		hi = 255
+	if hi >= 0x10FFFF {
+		hi = 0x2FFFF
 	}
 	if lo == hi {
 		return reChar(lo)
 	}
-	return fmt.Sprintf("(re.range %s %s)", strLit(string([]byte{byte(lo)})), strLit(string([]byte{byte(hi)})))
+	return fmt.Sprintf("(re.range %s %s)", smtChar(lo), smtChar(hi))
 }
 
 func (t *reTrans) tr(re *syntax.Regexp) (string, error) {
@@ -122,7 +126,7 @@ func (t *reTrans) tr(re *syntax.Regexp) (string, error) {
 		}
 		return "(re.union " + strings.Join(alts, " ") + ")", nil
 	case syntax.OpAnyCharNotNL:
-		return fmt.Sprintf("(re.union %s %s)", reRange(0, 9), reRange(11, 255)), nil
+		return fmt.Sprintf("(re.union %s %s)", reRange(0, 9), reRange(11, 0x10FFFF)), nil
 	case syntax.OpAnyChar:
 		return "re.allchar", nil
 	case syntax.OpCapture:
